@@ -36,6 +36,8 @@ pub struct Work {
     pub path: PathBuf,
     pub scratch: PathBuf,
     pub dedup: bool,
+    /// every simulated input stream fails hard at this read call (fault-injecting works only)
+    pub hard_err_call: Option<u64>,
 }
 
 pub fn gen_contents(rng: &mut Rng, n: usize, max_len: usize, srcs: &[SrcKind], comp: Comp) -> Vec<ContentSpec> {
@@ -73,7 +75,7 @@ pub fn create_and_read_back(work: &Work, report: &mut BodyReport) {
         sim_cfg: SimReaderCfg {
             short_pm: 300,
             intr_pm: 120,
-            err_at_call: None,
+            err_at_call: work.hard_err_call,
         },
         sim_stats: Arc::clone(&stats),
     };
@@ -121,6 +123,13 @@ pub fn create_and_read_back(work: &Work, report: &mut BodyReport) {
                 addresses.push(a.content_id.into_u64() as u32);
             }
             Err(e) => {
+                use std::sync::atomic::Ordering::Relaxed;
+                if stats.err.load(Relaxed) > 0 {
+                    // a hard input error was injected and is reported: legitimate
+                    report.notes.insert("fault:input-hard-error".into(), stats.err.load(Relaxed));
+                    report.notes.insert("hard_fault_reported_as_err".into(), 1);
+                    return;
+                }
                 report.complaints.push(format!("add_content({i}) failed: {e}"));
                 return;
             }
@@ -133,11 +142,23 @@ pub fn create_and_read_back(work: &Work, report: &mut BodyReport) {
     let data = match creator.finalize() {
         Ok((_file, data)) => data,
         Err(e) => {
+            use std::sync::atomic::Ordering::Relaxed;
+            if stats.err.load(Relaxed) > 0 {
+                report.notes.insert("fault:input-hard-error".into(), stats.err.load(Relaxed));
+                report.notes.insert("hard_fault_reported_as_err".into(), 1);
+                return;
+            }
             report.complaints.push(format!("finalize failed: {e}"));
             return;
         }
     };
     use std::sync::atomic::Ordering::Relaxed;
+    if stats.err.load(Relaxed) > 0 {
+        // the creator says Ok although an input stream failed: everything below must still hold,
+        // in particular the failed content must not read back as something else
+        report.notes.insert("fault:input-hard-error".into(), stats.err.load(Relaxed));
+        report.notes.insert("hard_fault_but_creator_returned_ok".into(), 1);
+    }
     report.notes.insert("fault:input-short-read".into(), stats.short.load(Relaxed));
     report.notes.insert("fault:input-interrupted".into(), stats.intr.load(Relaxed));
     // Progress protocol: every opened cluster is written exactly once before finalize returns
@@ -287,6 +308,12 @@ impl TCheck for C08 {
             ("decode_chunk", *rng.pick(&[7u64, 64, 4096])),
             ("decomp_pool_size", *rng.pick(&[1u64, 2, 8])),
         ];
+        // one work in six injects a hard error into its simulated input streams
+        let hard_err_call = if work % 6 == 5 && contents.iter().any(|c| c.src == SrcKind::Sim && c.bytes.len() > 0) {
+            Some(rng.range(0, 3))
+        } else {
+            None
+        };
         let dir = scratch.join(format!("w{work}"));
         std::fs::create_dir_all(&dir).unwrap();
         let w = Arc::new(Work {
@@ -296,8 +323,9 @@ impl TCheck for C08 {
             path: dir.join("pack.jbkc"),
             scratch: dir.clone(),
             dedup: false,
+            hard_err_call,
         });
-        let desc = json!({"comp": comp.name(), "contents": w.contents.iter().map(|c| format!("{}{}{}", c.bytes.len(), match c.hint {Hint::Yes=>"Y",Hint::No=>"N",Hint::Detect=>"D"}, match c.src {SrcKind::Cursor=>"c",SrcKind::File=>"f",SrcKind::FileRange=>"r",SrcKind::Sim=>"s"})).collect::<Vec<_>>(),
+        let desc = json!({"hard_input_error_at_read_call": hard_err_call, "comp": comp.name(), "contents": w.contents.iter().map(|c| format!("{}{}{}", c.bytes.len(), match c.hint {Hint::Yes=>"Y",Hint::No=>"N",Hint::Detect=>"D"}, match c.src {SrcKind::Cursor=>"c",SrcKind::File=>"f",SrcKind::FileRange=>"r",SrcKind::Sim=>"s"})).collect::<Vec<_>>(),
                           "workers": workers, "cluster_max_blobs": max_blobs, "cluster_max_size": max_size});
         let w2 = Arc::clone(&w);
         Prepared {
@@ -309,6 +337,7 @@ impl TCheck for C08 {
                 *slot.lock().unwrap() = rep;
             }),
             record_events: true,
+            hard_fault: hard_err_call.is_some(),
         }
     }
     fn history_oracle(&self, events: &[Event], _report: &BodyReport) -> Vec<String> {
